@@ -107,7 +107,7 @@ func (i *interpreter) global(g *ssa.Global) *value {
 // zeroOKGlobal lists globals of non-initialised packages whose zero value is a faithful start.
 func zeroOKGlobal(g *ssa.Global) bool {
 	switch g.String() {
-	case "internal/cpu.X86", "internal/cpu.ARM64", "errors.errorType", "context.goroutines", "time.localLoc", "time.utcLoc", "time.Local", "time.UTC":
+	case "crypto/rand.Reader", "internal/cpu.X86", "internal/cpu.ARM64", "errors.errorType", "context.goroutines", "time.localLoc", "time.utcLoc", "time.Local", "time.UTC":
 		return true
 	}
 	return false
